@@ -257,10 +257,16 @@ def _instants(i, n):
     return run
 
 
+def _times_notations(tier, seed):
+    from bounded import c04_instants as B
+    return B.times_section_notations(tier, seed)
+
+
 def _line_times(tier, seed):
     from bounded import c04_instants as B
     return B.control_line_times(tier, seed)
 
 
 BOUNDED = [Bounded("C04.control_instants[%d/4]" % i, ["C04", "C05"], _instants(i, 4), kind="random schedules on the real simulator (not exhaustive)") for i in range(4)] + \
-          [Bounded("C04.control_line_times", ["C04", "C12"], _line_times, kind="enumerated time notations of [CONTROLS] lines, run-time contract")]
+          [Bounded("C04.control_line_times", ["C04", "C12"], _line_times, kind="enumerated time notations of [CONTROLS] lines, run-time contract"),
+           Bounded("C04.times_section_notations", ["C04", "C12", "C03"], _times_notations, kind="enumerated time notations of the [TIMES] section, run-time contract")]
